@@ -1394,7 +1394,10 @@ func generate(r *hxlib.Run, emit func(hxlib.Case)) {
 		}
 		r.Count("unwrap-load:" + load)
 		tkey := "-"
-		if rng.Intn(4) == 0 {
+		// a target with a key of its own: only with JSON payloads — the model takes the codec to leave the
+		// (unexported) key fields of the target alone, which encoding/json does; msgpack's array form resets the
+		// whole struct (key included) before decoding, so that `SetKey` then is not ignored
+		if rng.Intn(4) == 0 && fm == dsd.JSON {
 			tkey = hxlib.Hex([]byte([]string{"other:k", ":x", "nocolon", "a:b:c"}[rng.Intn(4)]))
 		}
 		line := fmt.Sprintf("uw %s %s %s %d %s %s %s", hxlib.Hex([]byte(keyParts[rng.Intn(len(keyParts))])), hxlib.Hex([]byte(keyParts[rng.Intn(len(keyParts))])),
